@@ -225,6 +225,84 @@ func c03Hook(readersP *[]*c03Reader, ntP *bool, o *vfutil.Obs) func(x *clExec, o
 				return vfutil.Failf("C03/hw-decreased", "step %d: HW went from %d to %d", x.step, before, after), true
 			}
 			return nil, true
+		case "parksplit":
+			// an uncommitted reader (what a follower's replication is served from)
+			// is blocked at the end of the log while the cleaner loop rolls a new,
+			// still empty, active segment; what is appended afterwards must reach it
+			// without a gap
+			if x.m.Readonly || x.m.newest() < 0 || len(x.m.active().Msgs) == 0 || len(op.Msgs) == 0 {
+				return nil, true
+			}
+			// (readers are created at an offset that exists, as the replicator does;
+			// this one first delivers the newest message and then blocks)
+			newest := x.m.newest()
+			r, err := x.l.NewReader(newest, true)
+			if err != nil {
+				return vfutil.Failf("C03/reader-open-error", "step %d: NewReader(%d,uncommitted): %v", x.step, newest, err), true
+			}
+			ctx, cancel := context.WithTimeout(context.Background(), 60*time.Second)
+			defer cancel()
+			want := len(op.Msgs) + 1
+			type res struct {
+				offs []int64
+				err  error
+			}
+			done := make(chan res, 1)
+			go func() {
+				var offs []int64
+				hb := make([]byte, 28)
+				for len(offs) < want {
+					_, off, _, _, err := r.ReadMessage(ctx, hb)
+					if err != nil {
+						done <- res{offs, err}
+						return
+					}
+					offs = append(offs, off)
+				}
+				done <- res{offs, nil}
+			}()
+			old := x.l.activeSegment()
+			parked := false
+			// (a reader at the end of a segment that is already full does not
+			// register as a waiter: it polls until the next segment appears)
+			for until := time.Now().Add(time.Second); !parked && time.Now().Before(until); {
+				old.RLock()
+				parked = len(old.waiters) > 0
+				full := old.position >= old.maxBytes
+				old.RUnlock()
+				if full {
+					time.Sleep(2 * time.Millisecond)
+					o.Label("uncommitted-reader-polling-at-end-of-full-segment")
+					break
+				}
+				if !parked {
+					time.Sleep(50 * time.Microsecond)
+				}
+			}
+			if f := x.apply(clOp{Op: "split"}); f != nil {
+				return f, true
+			}
+			first := newest
+			if f := x.apply(clOp{Op: "append", Msgs: op.Msgs}); f != nil {
+				return f, true
+			}
+			if parked {
+				o.Label("uncommitted-reader-parked-across-empty-roll")
+			}
+			select {
+			case g := <-done:
+				if g.err != nil {
+					return vfutil.Failf("C03/uncommitted-reader-error", "step %d: reader blocked at the log end across a roll: got %v after offsets %v", x.step, g.err, g.offs), true
+				}
+				for i, off := range g.offs {
+					if off != first+int64(i) {
+						return vfutil.Failf("C03/delivered-wrong/order-or-duplicate", "step %d: an uncommitted reader blocked at the log end across a roll delivered offsets %v, want %d..%d", x.step, g.offs, first, first+int64(want)-1), true
+					}
+				}
+			case <-time.After(20 * time.Second):
+				return vfutil.Failf("C03/message-not-delivered/bounded-liveness(20s)", "step %d: an uncommitted reader blocked at the log end did not deliver offsets %d..%d appended after a roll", x.step, first, first+int64(want)-1), true
+			}
+			return nil, true
 		case "parkro":
 			// a committed reader that has caught up with the HW is blocked in
 			// ReadMessage while the log is switched to read-only: it must end only
